@@ -47,6 +47,12 @@ def run(ctx):
     compared, mism, by_kind, mlog = dbccheck.run_driver(drv, cases)
     if ctx.replay:
         print(mlog[-3000:])
+    else:
+        dbccheck.count_guard(ctx, PID, summ.get("records", -1), compared)
+        ctx.min_evaluations = 900 if ctx.tier == "quick" else 30000
+        for stream in ("doc-hexfalse", "doc-hextrue", "testdata", "hand", "mutation", "respaced", "zero-padded"):
+            if summ["hist"].get(stream, 0) <= 0:
+                ctx.violation("c08-harness-stream-missing", "the generator stream %s produced no case" % stream, {"hist": summ["hist"]}, found_input=False)
     # (1) the property predicate evaluated on the implementation's own results
     for head, detail in summ["fails"]:
         sig, fname = head[0], head[1]
